@@ -3,10 +3,15 @@
 in the Lean model (`Rbacx.Conc.step`; a thread blocked on the lock consumes its step as a no-op)."""
 from __future__ import annotations
 
+import contextvars
 import threading
 import time
 
 import lib
+
+# logical thread id of the controlled thread on whose behalf code runs: a ContextVar, so that work the engine hands to a helper
+# thread (asyncio.to_thread copies the context) is attributed to — and scheduled as part of — the logical thread that asked for it
+TID: contextvars.ContextVar = contextvars.ContextVar("verif_sched_tid", default=None)
 
 TIMEOUT = 10.0
 
@@ -22,9 +27,9 @@ class Controlled:
 
     # ---- called from worker threads
     def hook(self, label: str) -> None:
-        tid = self.ident.get(threading.get_ident())
+        tid = TID.get()
         if tid is None:
-            return                               # not a controlled thread (e.g. asyncio.to_thread worker)
+            return                               # not on behalf of a controlled thread
         with self.cv:
             self.state[tid] = "parked"
             self.label[tid] = label
@@ -37,6 +42,7 @@ class Controlled:
     def spawn(self, tid: int, fn) -> threading.Thread:
         def body():
             self.ident[threading.get_ident()] = tid
+            TID.set(tid)
             try:
                 fn()
             except BaseException as e:  # noqa: BLE001
